@@ -332,7 +332,9 @@ func (ex *Exec) eval(st *State, n *node, e *env) Val {
 			ne.vars[qv.name] = Val{K: KTerm, T: name, Typ: typ}
 			binds = append(binds, "("+name+" "+sort+")")
 		}
+		st.quantDepth++
 		body := ex.evalBool(st, n.args[0], ne)
+		st.quantDepth--
 		return term("("+n.op+" ("+strings.Join(binds, " ")+") "+body+")", tBool)
 	case "sel":
 		x := ex.eval(st, n.args[0], e)
@@ -481,6 +483,16 @@ func (ex *Exec) evalSel(st *State, x Val, name string, n *node) Val {
 		return ex.outPath(st, os.idx, ex.auditEventT(), os.path+"."+name, nil)
 	}
 	switch x.K {
+	case KSlice:
+		switch name {
+		case "id":
+			return x.Fs[0]
+		case "off":
+			return x.Fs[1]
+		case "len":
+			return x.Fs[2]
+		}
+		specFail("slice has no component %s", name)
 	case KStruct:
 		s := x.Typ.Underlying().(*types.Struct)
 		for i := 0; i < s.NumFields(); i++ {
@@ -763,6 +775,122 @@ func (ex *Exec) evalCall(st *State, n *node, e *env) Val {
 			specFail("typeid: unknown type %s", args[0].name)
 		}
 		return term(strconv.Itoa(id), tInt)
+	case "upd":
+		// upd(a, k, v): functional update of a ghost array
+		a, k, v := arg(0), arg(1), arg(2)
+		r := a
+		r.T = store(a.T, k.T, ex.asTerm(v))
+		return r
+	case "kept", "kept_old":
+		// kept("glob"): every region matching glob equals its value at the last loop cut (kept) / at entry (kept_old)
+		if len(args) < 1 || args[0].op != "lit-str" {
+			specFail("kept needs a region glob literal")
+		}
+		ref := st.preHeap
+		if fn.name == "kept_old" {
+			ref = ex.entryHeap
+		}
+		if ref == nil {
+			specFail("kept() outside a loop")
+		}
+		var except []string
+		for i := 1; i < len(args); i++ {
+			except = append(except, arg(i).T)
+		}
+		var cs []string
+		for _, r := range sortedKeys(ex.regSorts) {
+			if !matchRegion(args[0].name, r) {
+				continue
+			}
+			now := st.heap[r]
+			was, ok := ref[r]
+			if !ok {
+				was = sanitize(r) + "!0"
+				ex.declare(was, ex.regSorts[r])
+			}
+			if now == "" || now == was {
+				continue
+			}
+			if len(except) == 0 {
+				cs = append(cs, eq(now, was))
+				continue
+			}
+			var ne []string
+			for _, x := range except {
+				ne = append(ne, not(eq("r!k", x)))
+			}
+			cs = append(cs, "(forall ((r!k Int)) (! (=> "+and(ne...)+" (= (select "+now+" r!k) (select "+was+" r!k))) :pattern ((select "+now+" r!k))))")
+		}
+		return term(and(cs...), tBool)
+	case "kept_objs", "kept_objs_old":
+		// kept_objs("glob", except...): objects allocated at the reference state keep their values in matching regions
+		if len(args) < 1 || args[0].op != "lit-str" {
+			specFail("kept_objs needs a region glob literal")
+		}
+		ref := st.preHeap
+		if fn.name == "kept_objs_old" {
+			ref = ex.entryHeap
+		}
+		if ref == nil {
+			specFail("kept_objs() outside a loop")
+		}
+		a0, ok := ref["A"]
+		if !ok {
+			a0 = "A!0"
+		}
+		var except []string
+		for i := 1; i < len(args); i++ {
+			except = append(except, arg(i).T)
+		}
+		var cs []string
+		for _, r := range sortedKeys(ex.regSorts) {
+			if !matchRegion(args[0].name, r) || !strings.HasPrefix(ex.regSorts[r], "(Array Int ") {
+				continue
+			}
+			now := st.heap[r]
+			was, ok := ref[r]
+			if !ok {
+				was = sanitize(r) + "!0"
+				ex.declare(was, ex.regSorts[r])
+			}
+			if now == "" || now == was {
+				continue
+			}
+			conds := []string{"(select " + a0 + " r!k)"}
+			for _, x := range except {
+				conds = append(conds, not(eq("r!k", x)))
+			}
+			cs = append(cs, "(forall ((r!k Int)) (! (=> "+and(conds...)+" (= (select "+now+" r!k) (select "+was+" r!k))) :pattern ((select "+now+" r!k))))")
+		}
+		return term(and(cs...), tBool)
+	case "outprefix_kept":
+		// every ghost out[] entry below old(len(out)) is unchanged
+		ol := ex.entryHeap["G!out#len"]
+		if ol == "" {
+			ol = "G!out$len!0"
+		}
+		var cs []string
+		for _, r := range sortedKeys(ex.regSorts) {
+			if !strings.HasPrefix(r, "G!out!") {
+				continue
+			}
+			now := st.heap[r]
+			was, ok := ex.entryHeap[r]
+			if !ok {
+				was = sanitize(r) + "!0"
+			}
+			if now == "" || now == was {
+				continue
+			}
+			cs = append(cs, "(forall ((i!k Int)) (! (=> (and (<= 0 i!k) (< i!k "+ol+")) (= (select "+now+" i!k) (select "+was+" i!k))) :pattern ((select "+now+" i!k))))")
+		}
+		return term(and(cs...), tBool)
+	case "unbox":
+		// unbox(x, "leafpath"): leaf of a struct/slice value boxed into an interface
+		if len(args) != 3 || args[1].op != "lit-str" || args[2].op != "lit-str" {
+			specFail("unbox(x, \"sort\", \"path\")")
+		}
+		return Val{K: KTerm, T: sel(st.region("I!"+args[2].name, arr("Int", args[1].name)), arg(0).T), Typ: sortType(args[1].name)}
 	case "cast":
 		// cast(x, "*pkg.T"): view an interface value holding a pointer as that pointer
 		if len(args) != 2 || args[1].op != "lit-str" {
@@ -794,13 +922,12 @@ func (ex *Exec) evalCall(st *State, n *node, e *env) Val {
 	case "cancelled":
 		return term(sel(st.region("G!cancelled", arr("Int", "Bool")), arg(0).T), tBool)
 	case "holds":
-		// lock held
-		l := arg(0).T
-		var cs []string
-		for _, h := range st.locks {
-			cs = append(cs, eq(h, l))
+		// holds(obj, "mutexField"): the calling goroutine holds obj.mutexField
+		obj := arg(0)
+		if len(args) != 2 || args[1].op != "lit-str" || obj.Typ == nil {
+			specFail("holds(obj, \"field\")")
 		}
-		return term(or(cs...), tBool)
+		return term(st.heldGoal(lockTag(derefType(obj.Typ), args[1].name), obj.T), tBool)
 	case "group":
 		// group(re, s, "Name"): the named capture group of re's leftmost-first match on s
 		re, sv := arg(0), arg(1)
